@@ -218,8 +218,11 @@ INLINES = ["em", "strong", "code", "url", "auto", "image", "hard", "soft", "math
 
 
 LINK_TEXTS = ["plain", "`code`", "$m^2$", "*em*", "**`c`**", "![i](i.png)", "<b>h</b>", "", "a [b] c", "x `c` y", "&amp;", "\\*"]
-LINK_DESTS = ["https://e.org/x?a=1&b=2", "other.md", "./a/b.md#frag", "#anchor", "nofile.txt", "<a b.md>", "mailto:a@b.c", "", "/abs/x.md", "ünï.md", "x%20y.md", "a\\(b\\).md"]
-IMG = ["![alt](i.png)", "![*em* `c` alt](p/q.png \"T\")", "![](i.png)", "![a](<sp ace.png>)", "![a](https://e.org/i.png 'ti')", "![a ![b](c.png) d](e.png)", "![a][ref]\n\n[ref]: r.png \"RT\""]
+LINK_DESTS = ["./a/../b.md", "a//b.md", "dir/", "https://e.org/a/../b//c", "https://e.org/x?a=1&b=2", "other.md", "./a/b.md#frag", "#anchor", "nofile.txt", "<a b.md>", "mailto:a@b.c", "", "/abs/x.md", "ünï.md", "x%20y.md", "a\\(b\\).md"]
+IMG = ["![alt](i.png)", "![*em* `c` alt](p/q.png \"T\")", "![](i.png)", "![a](<sp ace.png>)", "![a](https://e.org/i.png 'ti')", "![a ![b](c.png) d](e.png)", "![a][ref]\n\n[ref]: r.png \"RT\"",
+       # destinations that a path normaliser would rewrite
+       "![a](./img/four.png)", "![a](img/../icons/six.svg)", "![a](assets//seven.png)", "![a](gallery/)", "![a](../up/./x.png)", "![a](/abs//y.png)", "![a](a/b/../../c.png?x=1#frag)", "![a](.)", "![a](data:image/png;base64,AA//BB==)",
+       "![a](x%2Fy.png)", "![a](ünï/ö.png)", "![a](C:/dir/z.png)", "![a](file:///tmp/../x.png)", "![a](<./sp ace/../i.png>)"]
 OL = ["{style=lower-alpha}\n1. a\n2. b", "{style=upper-roman start=4}\n4. a\n5. b", "{style=nosuch}\n1) a", "- x\n\n  {style=upper-alpha}\n  3. y", "1. a\n2. b", "0. a\n1. b", "7) a\n8) b", "007. a", "123456789. a", "1. a\n\n   1) b\n   2) c", "- x\n\n  0) y", "> 3. q", "2. a\n\n3) b", "* a\n+ b\n- c", "- a\n  - b\n    * c"]
 ALIGN = [":--", "--:", ":-:", "---"]
 INFO = ["python", "c", "text", "unknownlang", "python extra", "  py", "c++", "", "~x", "Python"]
